@@ -14,7 +14,7 @@
                            correspondence check does) nothing is dropped:  F = fun x => x.
    MultiVector.grade(...) and attribute access (.e) do not go through an OperatorDict: no filter. *)
 From KV Require Export Model.Codegen Model.Composite.
-From Coq Require Import QArith.
+From Coq Require Import QArith Qcanon.
 Local Open Scope Z_scope.
 
 Section Inverse.
@@ -210,3 +210,6 @@ Definition qmv_equiv (A : alg) (x y : mv Q) : bool :=
   forallb (fun k => Qeq_bool (coeff Qops k x) (coeff Qops k y)) (canon_keys A)
   && forallb (fun k => zin k (canon_keys A)) (keys x) && forallb (fun k => zin k (canon_keys A)) (keys y).
 Definition idF {R} (x : mv R) : mv R := x.
+(* canonical fractions: a coefficient field with Leibniz equality (instance of the theorems) *)
+Definition Qcops : ops Qc := mkOps Qc Qcplus Qcminus Qcmult Qcopp (Q2Qc 0) (Q2Qc 1).
+Definition Qcisz (r : Qc) : bool := Qc_eq_bool r (Q2Qc 0).
